@@ -56,6 +56,10 @@ pub enum E {
     Control(CtlFrame),
     ControlFin,
     ControlReset,
+    /// part of a frame (0: first byte of a 2-byte frame type; 1: type + first byte of a 2-byte
+    /// length; 2: type + length 5 + 2 payload bytes; 3: GOAWAY type + length 1, no payload),
+    /// then a clean FIN of the control stream
+    ControlTruncFin { kind: u8 },
     QpackOpen { enc: bool },
     QpackFin { enc: bool },
     QpackReset { enc: bool },
@@ -166,6 +170,20 @@ pub fn model(events: &[E], server_under_test: bool) -> (Expect, Option<usize>) {
                     return close(&[H3_CLOSED_CRITICAL_STREAM]);
                 }
                 return close(&[H3_CLOSED_CRITICAL_STREAM, H3_MISSING_SETTINGS]);
+            }
+            E::ControlTruncFin { .. } => {
+                if !m.control_open {
+                    continue;
+                }
+                // RFC 9114 7.1: "When a stream terminates cleanly, if the last frame on the stream
+                // was truncated, this MUST be treated as a connection error of type
+                // H3_FRAME_ERROR" - the specific rule for this event (the property's mechanism
+                // list: UnexpectedFin -> H3_FRAME_ERROR). Before SETTINGS the other readings
+                // (no SETTINGS ever came / critical stream closed) are equally prescribed.
+                if m.settings {
+                    return close(&[H3_FRAME_ERROR]);
+                }
+                return close(&[H3_FRAME_ERROR, H3_MISSING_SETTINGS, H3_CLOSED_CRITICAL_STREAM]);
             }
             E::QpackOpen { enc } => {
                 let slot = if *enc { &mut m.qenc } else { &mut m.qdec };
@@ -280,6 +298,9 @@ fn alphabet(server_under_test: bool) -> Vec<E> {
     for f in CTL_FRAMES {
         a.push(E::Control(f));
     }
+    for kind in 0..4u8 {
+        a.push(E::ControlTruncFin { kind });
+    }
     for enc in [true, false] {
         a.push(E::QpackOpen { enc });
         a.push(E::QpackFin { enc });
@@ -334,7 +355,7 @@ fn usable(seq: &[E]) -> bool {
                 }
             }
             E::ControlOpenBare => control = true,
-            E::Control(_) | E::ControlFin | E::ControlReset => {
+            E::Control(_) | E::ControlFin | E::ControlReset | E::ControlTruncFin { .. } => {
                 if !control {
                     return false;
                 }
@@ -494,6 +515,19 @@ pub fn compile(p: &Plan) -> Script {
             E::ControlReset => {
                 if let Some(slot) = control_slot {
                     acts.push(Act::Reset { slot, code: 0x10c });
+                }
+            }
+            E::ControlTruncFin { kind } => {
+                if let Some(slot) = control_slot {
+                    let g = varint(grease(9)); // a 2-byte varint
+                    let b: Vec<u8> = match kind {
+                        0 => g[..1].to_vec(),
+                        1 => [g.clone(), vec![0x40]].concat(),
+                        2 => [g.clone(), vec![0x05, 0xaa, 0xbb]].concat(),
+                        _ => vec![FRAME_GOAWAY as u8, 0x01],
+                    };
+                    acts.push(Act::Write { slot, hex: hex(&b) });
+                    acts.push(Act::Fin { slot });
                 }
             }
             E::QpackOpen { enc } => {
@@ -752,7 +786,7 @@ pub fn def() -> PropertyDef {
     PropertyDef {
         id: "C12",
         scenarios: vec![Box::new(Typed(C12Raw))],
-        rule: "Each run: a sequence of connection-level events performed by the scripted raw peer against the running driver (client role against the real server, server role against the real client): open the control stream with / without SETTINGS, open it again, FIN / reset it; on it: SETTINGS, SETTINGS with a reserved id, with a duplicated id, with a truncated payload, DATA, HEADERS, GREASE, GOAWAY, a WebTransport signal, oversize frames; QPACK encoder / decoder streams opened, duplicated, finished, reset; request streams whose first frame is a valid extended CONNECT, GREASE then CONNECT, DATA, SETTINGS, HEADERS with a dynamic-table reference, oversize HEADERS, a frame truncated by FIN, nothing then FIN, immediate reset, a WebTransport signal with a non-client-bidi session id, GREASE then a WebTransport signal, a non-CONNECT request; WebTransport uni streams with invalid session ids. The first N runs enumerate every usable sequence of depth 1 and 2 for both roles (exhaustive_prefix), the rest sample depth 3-6 (with optional short-read caps). Oracle: a reference model (rule table from RFC 9114 / RFC 9204 / the WebTransport draft) names the first prohibited event and the set of application error codes allowed for it; the CONNECTION_CLOSE code seen by the raw peer must be in the set; if nothing is prohibited, a valid session must still establish and end with the close capsule (H3_NO_ERROR on the wire). Where the specifications allow more than one reaction the table holds the set. Distinct = distinct plan hashes (every run is non-trivial).",
+        rule: "Each run: a sequence of connection-level events performed by the scripted raw peer against the running driver (client role against the real server, server role against the real client): open the control stream with / without SETTINGS, open it again, FIN / reset it, FIN it in the middle of a frame (type, length or payload cut); on it: SETTINGS, SETTINGS with a reserved id, with a duplicated id, with a truncated payload, DATA, HEADERS, GREASE, GOAWAY, a WebTransport signal, oversize frames; QPACK encoder / decoder streams opened, duplicated, finished, reset; request streams whose first frame is a valid extended CONNECT, GREASE then CONNECT, DATA, SETTINGS, HEADERS with a dynamic-table reference, oversize HEADERS, a frame truncated by FIN, nothing then FIN, immediate reset, a WebTransport signal with a non-client-bidi session id, GREASE then a WebTransport signal, a non-CONNECT request; WebTransport uni streams with invalid session ids. The first N runs enumerate every usable sequence of depth 1 and 2 for both roles (exhaustive_prefix), the rest sample depth 3-6 (with optional short-read caps). Oracle: a reference model (rule table from RFC 9114 / RFC 9204 / the WebTransport draft) names the first prohibited event and the set of application error codes allowed for it; the CONNECTION_CLOSE code seen by the raw peer must be in the set; if nothing is prohibited, a valid session must still establish and end with the close capsule (H3_NO_ERROR on the wire). Where the specifications allow more than one reaction the table holds the set. Distinct = distinct plan hashes (every run is non-trivial).",
         assumptions: vec![
             "the rule table is transcribed by hand from the specifications; only rules the property enumerates are included",
             "implementation limits that are documented constants (4096 B frame-parse limit -> H3_EXCESSIVE_LOAD) are part of the table",
